@@ -24,7 +24,6 @@ import (
 	"github.com/cosmos/cosmos-sdk/client"
 	codectypes "github.com/cosmos/cosmos-sdk/codec/types"
 	cryptocodec "github.com/cosmos/cosmos-sdk/crypto/codec"
-	"github.com/cosmos/cosmos-sdk/simapp"
 	"github.com/cosmos/cosmos-sdk/simapp/helpers"
 	sdk "github.com/cosmos/cosmos-sdk/types"
 	"github.com/cosmos/cosmos-sdk/types/tx/signing"
@@ -106,7 +105,8 @@ type Chain struct {
 	Headers map[int64]*xibctmtypes.Header
 
 	// DB is the application database (Restart re-opens the application over it).
-	DB dbm.DB
+	DB      dbm.DB
+	nodeCfg nodeConfig
 	// AfterCommit, when non-nil, runs between the Commit of a block and the BeginBlock of the next one (the only point at
 	// which a node process may stop and start again); PreDeliver runs before every DeliverTx with the raw transaction
 	// (a node may simulate or CheckTx a transaction any number of times before it sees it in a block).
@@ -130,6 +130,19 @@ type ChainOpts struct {
 	// GenesisMutator may edit the genesis map before InitChain.
 	GenesisMutator func(a *app.Teleport, g map[string]json.RawMessage)
 	Start          time.Time
+	// NodeConfig is the node operator's configuration (app.toml / flags / environment as the server hands it to the
+	// application constructor); nil = no option set. It is not part of consensus.
+	NodeConfig map[string]interface{}
+}
+
+// nodeConfig adapts a map to the server's AppOptions.
+type nodeConfig map[string]interface{}
+
+func (n nodeConfig) Get(k string) interface{} {
+	if n == nil {
+		return nil
+	}
+	return n[k]
 }
 
 // NewChain builds a chain, commits the genesis block and opens block 2.
@@ -182,7 +195,7 @@ func NewChain(chainID string, o ChainOpts) *Chain {
 
 	db := dbm.NewMemDB()
 	encCdc := encoding.MakeConfig(app.ModuleBasics)
-	tp := app.NewTeleport(log.NewNopLogger(), db, nil, true, map[int64]bool{}, app.DefaultNodeHome, 5, encCdc, simapp.EmptyAppOptions{})
+	tp := app.NewTeleport(log.NewNopLogger(), db, nil, true, map[int64]bool{}, app.DefaultNodeHome, 5, encCdc, nodeConfig(o.NodeConfig))
 	genesis := app.NewDefaultGenesisState()
 
 	authGenesis := authtypes.NewGenesisState(authtypes.DefaultParams(), genAccs)
@@ -258,6 +271,7 @@ func NewChain(chainID string, o ChainOpts) *Chain {
 		Now:      o.Start,
 		Headers:  map[int64]*xibctmtypes.Header{},
 		DB:       db,
+		nodeCfg:  nodeConfig(o.NodeConfig),
 	}
 	// block 1: set the XIBC chain name (keeper + packet contract), as the chain's own tooling does
 	c.Header = tmproto.Header{
@@ -312,7 +326,7 @@ func (c *Chain) Commit(dt time.Duration) {
 // loads the last committed version, as a node does after a crash-free stop. Only call from AfterCommit (no block open).
 func (c *Chain) Restart() {
 	encCdc := encoding.MakeConfig(app.ModuleBasics)
-	c.App = app.NewTeleport(log.NewNopLogger(), c.DB, nil, true, map[int64]bool{}, app.DefaultNodeHome, 5, encCdc, simapp.EmptyAppOptions{})
+	c.App = app.NewTeleport(log.NewNopLogger(), c.DB, nil, true, map[int64]bool{}, app.DefaultNodeHome, 5, encCdc, c.nodeCfg)
 	c.TxConfig = encCdc.TxConfig
 }
 
